@@ -58,7 +58,12 @@ def gen_cases(seed, tier):
     n = 70 if tier == "quick" else 700
     for i in range(n):
         c = gen_schema(rng, "e%d" % i)
-        nent = rng.choice([0, 1, 2, 3, 8, 25]) if tier == "quick" or rng.random() < 0.9 else rng.choice([300, 3000])
+        nent = rng.choice([0, 1, 2, 3, 8, 25]) if tier == "quick" or rng.random() < 0.9 else rng.choice([300, 300, 1000])
+        if nent >= 1000 or (tier != "quick" and i % 233 == 7):
+            # thousands of entries: integer and content-address columns only (the list-based model reader is quadratic
+            # in the size of a value store, so array columns stay with the smaller stores)
+            nent = nent if nent >= 1000 else 3000
+            c["props"] = [p for p in c["props"] if p["kind"] != "a"] or [dict(variant=None, kind="u", name="p99")]
         # per column: constant or varying
         const = {}
         for p in c["props"]:
